@@ -233,15 +233,20 @@ class ConditionSelector(ConditionItem):
         # When a filter is applied to a rule its detection identifiers are renamed to
         # start with a `_filt_<random>_` prefix, and its condition patterns receive the
         # same prefix.  We therefore allow `_`-prefixed identifiers to be matched when
-        # the pattern itself starts with `_` (i.e. it is a filter-internal pattern).
-        # For patterns that do NOT start with `_` (i.e. rule-level patterns such as
-        # "1 of selection_*") the original restriction is kept so that filter identifiers
-        # are never accidentally pulled into the rule's own selectors.
+        # the pattern itself starts with `_`. Identifiers with the filter prefix are only
+        # matched by patterns that carry this prefix themselves (i.e. filter-internal patterns),
+        # so that filter identifiers are never accidentally pulled into the rule's own selectors,
+        # also not by rule-level patterns like "1 of _*".
+        internal_prefix = "_filt_"
         return [
             ConditionIdentifier([identifier])
             for identifier in detections.detections.keys()
             if r.fullmatch(identifier)
             and (self.pattern.startswith("_") or not identifier.startswith("_"))
+            and (
+                self.pattern.startswith(internal_prefix)
+                or not identifier.startswith(internal_prefix)
+            )
         ]
 
     def postprocess(
